@@ -16,6 +16,13 @@ import (
 var c15Names = []string{"-", "-k", "data.bin", "my file.txt", "report", "a b c.log", "x", "notes.md", "IMG 0001.raw", "weird.name.here", "Z", "-dash.txt", "--double", "été.txt", "tab\tname"}
 
 func genForeignStream(r *sim.Rng, format string) *checks.StreamRecipe {
+	if files := checks.CorpusFiles(format); len(files) > 0 && r.Chance(1, 6) {
+		// files written by xz 5.8.2 / python-lzma (single-stream ones)
+		f := sim.Pick(r, files)
+		if len(f) < 3 || f[:3] != "ms_" {
+			return &checks.StreamRecipe{Kind: "corpus", File: f}
+		}
+	}
 	pl := sim.GenPayload(r, 3000)
 	if liblzma.Available && r.Chance(2, 3) {
 		o := &liblzma.EncOptions{Preset: uint32(r.Intn(3)), LC: -1, Check: sim.Pick(r, []int{0, 1, 4, 10})}
